@@ -1402,6 +1402,14 @@ fn knn_classifier(c: &mut Case) {
     let nc = if c.rng.bool(0.1) { 1 } else { c.rng.us(2, 4) };
     let mut perm = c.rng.perm(pool.len());
     perm.truncate(nc);
+    // label values: the fixed pool, or (nc >= 2) a set chosen to defeat shortcuts in the class bookkeeping
+    let values: Vec<f64> = if nc >= 2 && c.rng.bool(0.2) {
+        let (v, name) = scverif::gen::tricky_labels(&mut c.rng, nc);
+        c.bucket(&format!("labels:{}", name));
+        v
+    } else {
+        perm.iter().map(|q| pool[*q]).collect()
+    };
     let ykind = *c.rng.pick(&["random", "random", "by-first-coordinate", "imbalanced"]);
     let med = {
         let s = sorted_f(&inp.rows.iter().map(|r| r[0]).collect::<Vec<f64>>());
@@ -1426,7 +1434,7 @@ fn knn_classifier(c: &mut Case) {
                     }
                 }
             };
-            pool[perm[cl]]
+            values[cl]
         })
         .collect();
     est_describe(c, "classifier", &inp, kind);
